@@ -195,6 +195,9 @@ func extractC11() *lean {
 	s = stmts(c11Method(bitF, "", "newBitstring"))
 	l.def("bitstring_new", "List String", leanStrList(s), s)
 
+	s = stmts(c11Method(issF, "StatusList2021", "statusListURL"))
+	l.def("statusListURL", "List String", leanStrList(s), s)
+
 	// Entry: conditions, the first-time literal, retry on duplicate key, row lock
 	entry := c11Method(issF, "StatusList2021", "Entry")
 	conds, calls := c11Conds(entry)
